@@ -1,0 +1,86 @@
+//go:build verif
+
+// Contracts for TopicStats.Add in types.go (C18: nsqadmin's cluster view equals the sum of its parts),
+// checked by nsqvc. Comment-only file.
+
+package clusterinfo
+
+// "the list s[0..n) has a (real) channel called name"
+//@ pred ihasChan(s []*ChannelStats, n int, name string) := exists k int :: {s[k]} 0 <= k && k < n && s[k] != nil && s[k].ChannelName == name
+// every entry of the list is a real object
+//@ pred ichansNonNil(s []*ChannelStats) := forall k int :: {s[k]} 0 <= k && k < len(s) ==> s[k] != nil
+// the real entries of a decoded list are different objects
+//@ pred idistinct(s []*ChannelStats) := forall i int, j int :: {s[i], s[j]} 0 <= i && i < j && j < len(s) && s[i] != nil ==> s[i] != s[j]
+// the per-node list of accumulator x does not live in the backing array of list s
+//@ pred isep(x *ChannelStats, s []*ChannelStats) := base(s) == 0 || base(x.NodeStats) != base(s)
+//@ pred isepAll(l []*ChannelStats, s []*ChannelStats) := forall k int :: {l[k]} 0 <= k && k < len(l) && l[k] != nil ==> isep(l[k], s)
+// the per-node lists of the entries were allocated before now
+//@ pred iallocd(l []*ChannelStats) := forall k int :: {l[k]} 0 <= k && k < len(l) && l[k] != nil ==> allocated(base(l[k].NodeStats))
+//@ pred iaccsOK(l []*ChannelStats) := forall k int :: {l[k]} 0 <= k && k < len(l) && l[k] != nil ==> accOK(l[k])
+
+//@ func (t *TopicStats) Add(a *TopicStats)
+//@   props C18
+//@   ghostparam gname string
+//@   inst Add.gcs t.Channels, a.Channels
+//@   inst Sort.gcs t.Channels, a.Channels
+//@   inst Sort.gms t.E2eProcessingLatency.Percentiles
+//@   requires t != nil && a != nil
+//@   requires[distinct] t != a
+//@   requires[own-channels] ichansNonNil(t.Channels)
+//@   requires[own-latency] t.E2eProcessingLatency != nil ==> entriesOK(t.E2eProcessingLatency)
+//@   requires[lists-apart] len(a.Channels) == 0 || base(t.Channels) != base(a.Channels)
+//@   requires[sep] isepAll(t.Channels, t.Channels) && isepAll(t.Channels, a.Channels) && isepAll(a.Channels, t.Channels) && isepAll(a.Channels, a.Channels)
+//@   requires[a-distinct] idistinct(a.Channels)
+//@   requires[accs] iaccsOK(t.Channels) && iaccsOK(a.Channels)
+//@   ensures[node] t.Node == "*"
+//@   ensures[depth] sum64(t.Depth, old(t.Depth), old(a.Depth))
+//@   ensures[memory-depth] sum64(t.MemoryDepth, old(t.MemoryDepth), old(a.MemoryDepth))
+//@   ensures[backend-depth] sum64(t.BackendDepth, old(t.BackendDepth), old(a.BackendDepth))
+//@   ensures[message-count] sum64(t.MessageCount, old(t.MessageCount), old(a.MessageCount))
+//@   ensures[delivery] sum64(t.DeliveryMsgCount, old(t.DeliveryMsgCount), old(a.DeliveryMsgCount))
+//@   ensures[zone-local] sum64(t.ZoneLocalMsgCount, old(t.ZoneLocalMsgCount), old(a.ZoneLocalMsgCount))
+//@   ensures[region-local] sum64(t.RegionLocalMsgCount, old(t.RegionLocalMsgCount), old(a.RegionLocalMsgCount))
+//@   ensures[global] sum64(t.GlobalMsgCount, old(t.GlobalMsgCount), old(a.GlobalMsgCount))
+//@   ensures[paused] t.Paused == (old(t.Paused) || old(a.Paused))
+//@   ensures[nodes] len(t.NodeStats) == old(len(t.NodeStats)) + 1
+//@   ensures[channel-union-kept] old(ihasChan(t.Channels, len(t.Channels), gname)) ==> ihasChan(t.Channels, len(t.Channels), gname)
+//@   ensures[channel-union-added] old(ihasChan(a.Channels, len(a.Channels), gname)) ==> ihasChan(t.Channels, len(t.Channels), gname)
+//@   ensures[channel-union-only] ihasChan(t.Channels, len(t.Channels), gname) ==> (old(ihasChan(t.Channels, len(t.Channels), gname)) || old(ihasChan(a.Channels, len(a.Channels), gname)))
+//@   ensures[channels-kept] len(t.Channels) >= old(len(t.Channels)) && forall k int :: {t.Channels[k]} 0 <= k && k < old(len(t.Channels)) ==> t.Channels[k] == old(t.Channels[k])
+//@   ensures[channels-non-nil] ichansNonNil(t.Channels)
+//@   loop 0
+//@     invariant[idx] rangeindex < len(a.Channels)
+//@     invariant[a-list] a.Channels == old(a.Channels)
+//@     invariant[a-kept] forall k int :: {a.Channels[k]} 0 <= k && k < len(a.Channels) ==> a.Channels[k] == old(a.Channels[k])
+//@     invariant[t-prefix] len(t.Channels) >= old(len(t.Channels)) && forall k int :: {t.Channels[k]} 0 <= k && k < old(len(t.Channels)) ==> t.Channels[k] == old(t.Channels[k])
+//@     invariant[t-non-nil] ichansNonNil(t.Channels)
+//@     invariant[lists-apart] len(a.Channels) == 0 || base(t.Channels) != base(a.Channels)
+//@     invariant[sep-tt] isepAll(t.Channels, t.Channels)
+//@     invariant[sep-ta] isepAll(t.Channels, a.Channels)
+//@     invariant[sep-at] isepAll(a.Channels, t.Channels)
+//@     invariant[sep-aa] isepAll(a.Channels, a.Channels)
+//@     invariant[union] ihasChan(t.Channels, len(t.Channels), gname) <==> (old(ihasChan(t.Channels, len(t.Channels), gname)) || ihasChan(a.Channels, rangeindex + 1, gname))
+//@     assume iallocd(t.Channels) && iallocd(a.Channels)
+//@     assume iaccsOK(t.Channels) && iaccsOK(a.Channels) && (t.E2eProcessingLatency != nil ==> entriesOK(t.E2eProcessingLatency))
+//@   loop 1
+//@     invariant[a-list] a.Channels == old(a.Channels)
+//@     invariant[a-kept] forall k int :: {a.Channels[k]} 0 <= k && k < len(a.Channels) ==> a.Channels[k] == old(a.Channels[k])
+//@     invariant[t-prefix] len(t.Channels) >= old(len(t.Channels)) && forall k int :: {t.Channels[k]} 0 <= k && k < old(len(t.Channels)) ==> t.Channels[k] == old(t.Channels[k])
+//@     invariant[t-non-nil] ichansNonNil(t.Channels)
+//@     invariant[lists-apart] len(a.Channels) == 0 || base(t.Channels) != base(a.Channels)
+//@     invariant[sep-tt] isepAll(t.Channels, t.Channels)
+//@     invariant[sep-ta] isepAll(t.Channels, a.Channels)
+//@     invariant[sep-at] isepAll(a.Channels, t.Channels)
+//@     invariant[sep-aa] isepAll(a.Channels, a.Channels)
+//@     invariant[a-channel-real] aChannelStats != nil
+//@     invariant[cur] exists i int :: {a.Channels[i]} 0 <= i && i < len(a.Channels) && a.Channels[i] == aChannelStats && (ihasChan(t.Channels, len(t.Channels), gname) <==> (old(ihasChan(t.Channels, len(t.Channels), gname)) || ihasChan(a.Channels, i, gname)))
+//@     invariant[found] found <==> (exists k int :: {t.Channels[k]} 0 <= k && k <= rangeindex && k < len(t.Channels) && t.Channels[k].ChannelName == aChannelStats.ChannelName)
+//@     assume iallocd(t.Channels) && iallocd(a.Channels)
+//@     assume iaccsOK(t.Channels) && iaccsOK(a.Channels) && (t.E2eProcessingLatency != nil ==> entriesOK(t.E2eProcessingLatency))
+
+// Everything TopicStats.Add requires of an accumulator t and a per-node object a (used by nsqadmin's topicHandler).
+//@ pred iaddPre(t *TopicStats, a *TopicStats) := t != nil && a != nil && t != a && ichansNonNil(t.Channels)
+//@      && (t.E2eProcessingLatency != nil ==> entriesOK(t.E2eProcessingLatency))
+//@      && (len(a.Channels) == 0 || base(t.Channels) != base(a.Channels))
+//@      && isepAll(t.Channels, t.Channels) && isepAll(t.Channels, a.Channels) && isepAll(a.Channels, t.Channels) && isepAll(a.Channels, a.Channels)
+//@      && idistinct(a.Channels) && iaccsOK(t.Channels) && iaccsOK(a.Channels)
